@@ -438,11 +438,24 @@ def kind_dispatch(repo, fi):
                             default = Handler(fi, func=cs[0].func)
         return table, default, form
     # if-chain
+    def desugar(st):
+        # `T = a if <kind test> else b` (also what pre-normalisation makes of an if-chain of assignments) is the if-chain
+        if isinstance(st, ast.Assign) and isinstance(st.value, ast.IfExp) and _kind_test(flow, st.value.test) is not None:
+            mk = lambda v: ast.copy_location(ast.Assign(targets=st.targets, value=v), st)
+            new = ast.copy_location(ast.If(test=st.value.test, body=[desugar(mk(st.value.body))], orelse=[desugar(mk(st.value.orelse))]), st)
+            new._kinds = _kind_test(flow, st.value.test)  # decided on the original node (reaching definitions need its position)
+            return new
+        return st
+
+    def ktest(st):
+        return getattr(st, "_kinds", None) or _kind_test(flow, st.test)
+
     def scan(stmts):
         nonlocal default, form
+        stmts = [desugar(s) for s in stmts]
         for i, st in enumerate(stmts):
             if isinstance(st, ast.If):
-                kinds = _kind_test(flow, st.test)
+                kinds = ktest(st)
                 if kinds is not None:
                     h = _handler_of(repo, fi, st.body)
                     for k in kinds:
@@ -450,12 +463,12 @@ def kind_dispatch(repo, fi):
                     form = (True, "if-chain on dtype.kind")
                     rest = stmts[i + 1:]
                     if st.orelse:
-                        if len(st.orelse) == 1 and isinstance(st.orelse[0], ast.If) and _kind_test(flow, st.orelse[0].test) is not None:
+                        if len(st.orelse) == 1 and isinstance(st.orelse[0], ast.If) and ktest(st.orelse[0]) is not None:
                             scan(st.orelse)
                         else:
                             default = _handler_of(repo, fi, st.orelse)
                     elif rest:
-                        if any(isinstance(x, ast.If) and _kind_test(flow, x.test) is not None for x in rest[:1]):
+                        if any(isinstance(x, ast.If) and ktest(x) is not None for x in rest[:1]):
                             scan(rest)
                         else:
                             default = _handler_of(repo, fi, rest)
